@@ -923,13 +923,14 @@ def obligations(tier, only=None):
     return obs
 
 
-def ob_step_true_system(kind):
-    """the same step with a system loss (sum over the equations of the system): it must run and keep the bookkeeping / frame clauses"""
-    name = f"C17/rar_step_true/ensures.step_with_a_system_loss[{kind}]"
+def ob_step_true_system(kind, cols=None):
+    """the same step with a system loss (sum over the equations of the system): it must run and keep the bookkeeping / frame clauses.
+    cols: every equation returns a residual vector with `cols` components (squared residual = sum of squared components)"""
+    name = f"C17/rar_step_true/ensures.step_with_a_system_loss[{kind}{'' if cols is None else ',residual_components=' + str(cols)}]"
     def run(seed):
         t0 = time.time()
         try:
-            ex, data, d2, pc, mt, mx = run_step_true(kind, system=True)
+            ex, data, d2, pc, mt, mx = run_step_true(kind, system=True, cols=cols)
         except pyvc.PyRaise as e:
             nat = native_system_statio() if kind == "statio" else (_safe_native(native_system_nonstatio_ranking) if kind == "nonstatio" else None)
             return dict(status="violated", failure="raises", backend="pyvc",
@@ -947,8 +948,13 @@ def ob_step_true_system(kind):
             srt = getattr(ex, "sorts", [])
             if len(srt) == 1 and len(res) == 2:
                 S_ = St if kind == "ODE" else Sx
+                if cols is None:
+                    sq = sum((rf(t) * rf(t) for rf, _ in res), z3.RealVal(0))
+                else:
+                    sq = sum((rf(t, z3.IntVal(c2)) * rf(t, z3.IntVal(c2)) for rf, _ in res for c2 in range(cols)), z3.RealVal(0))
+                    ax += pyvc.norm_axioms(ex, [t])
                 goals.append(("ranked_by_sum_over_equations_of_squared_residuals", z3.Implies(
-                    z3.And(t >= 0, t < S_), zreal(srt[0][1].elem(t)) == sum((rf(t) * rf(t) for rf, _ in res), z3.RealVal(0)))))
+                    z3.And(t >= 0, t < S_), zreal(srt[0][1].elem(t)) == sq)))
             else:
                 goals.append(("one_ranking_over_all_equations", z3.BoolVal(False)))
         else:
@@ -1120,6 +1126,7 @@ def c17_obligations(tier):
                 obs.append(ob_step_true(kind, "adds_highest_residual_candidates", cols=cols))
             obs.append(ob_step_true(kind, "active_points_kept", cols=2))
     obs.append(ob_reshuffle_keeps_active_set())
+    obs.append(ob_step_true_system("statio", cols=2))       # equations returning residual vectors (what jinns' equations do)
     for kind in ("ODE", "statio", "nonstatio"):
         obs.append(ob_step_true_system(kind))
         # the step clauses above assume room for a full selected set in every store the step writes: that precondition is
